@@ -11,11 +11,18 @@ mod ctl;
 mod family;
 mod flw;
 mod p_c01;
+mod p_c02;
+mod p_c05;
 mod p_c06;
 mod p_c07;
 mod p_c08;
 mod p_c09;
+mod p_c12;
+mod p_c15;
+mod p_c17;
+mod p_c18;
 mod rng;
+mod spec;
 mod util;
 
 use serde_json::{json, Value};
@@ -26,10 +33,16 @@ use util::{CaseCtx, CaseResult, Verdict};
 fn run_one(prop: &str, ctx: &mut CaseCtx) -> CaseResult {
     match prop {
         "C01" => p_c01::run_case(ctx),
+        "C02" => p_c02::run_case(ctx),
+        "C05" => p_c05::run_case(ctx),
         "C06" => p_c06::run_case(ctx),
         "C07" => p_c07::run_case(ctx),
         "C08" => p_c08::run_case(ctx),
         "C09" => p_c09::run_case(ctx),
+        "C12" => p_c12::run_case(ctx),
+        "C15" => p_c15::run_case(ctx),
+        "C17" => p_c17::run_case(ctx),
+        "C18" => p_c18::run_case(ctx),
         _ => {
             let mut r = CaseResult::new("unknown-property");
             r.inconclusive(format!("no monitor for {prop}"));
